@@ -625,6 +625,9 @@ def ident(v):
 class Inner:
     a: int
     b: str = "x"
+@attrs.define
+class InnerSub(Inner):
+    zz: int = 9
 @dataclasses.dataclass
 class DInner:
     n: int
@@ -827,6 +830,30 @@ def generic_battery(v: Verdict, prop: str, n_families: int):
                         if not same_outcome(r1, r2):
                             v.violation("detailed_validation changes acceptance or the result (generic class)",
                                         dict(desc, payload=repr(o), this_mode=repr(r1), other_mode=repr(r2)))
+            # values whose runtime class is a SUBCLASS of the bound argument: a bound TypeVar means the hook of the declared argument runs
+            # (the subclass's own attributes are not emitted); a TypeVar the generator failed to bind falls back to the runtime class
+            if "C03" in props and not is_td and fam["sub_arg"] == "Inner":
+                for cname in ("Sub", "Leaf", "Two", "Mixed"):
+                    cl = getattr(mod, cname)
+                    T = cl[args[fam["mixed_arg"]]] if cname == "Mixed" else cl
+                    kw = {"label": "l"}
+                    sub = lambda: mod.InnerSub(1, "q", 5)      # noqa
+                    for name, sh, _c in fam["fields"]:
+                        kw[name] = {"T": sub(), "List[T]": [sub()], "Dict[str, T]": {"k": sub()}, "Optional[T]": sub(), "Tuple[T, ...]": (sub(),)}[sh]
+                    x = cl(**kw)
+                    exp_fields = {name: field_enc(sh, "Inner", kw[name]) for name, sh, _c in fam["fields"]}
+                    for dvv in (True, False):
+                        ures = run(convs[dvv].unstructure, x, T)
+                        hist["subclass_valued"] = hist.get("subclass_valued", 0) + 1
+                        v.count(repr((fam["src"], cname, "subclass-valued", dvv)), True)
+                        if ures[0] != "ok":
+                            continue
+                        got = {name: ures[1].get(name) for name in exp_fields}
+                        if not deep_same(got, exp_fields):
+                            v.violation("a TypeVar bound through a (plain) subclass chain is not applied when unstructuring: attributes typed with it are encoded by the runtime class of the value, not by the bound argument",
+                                        {"battery": "GENERIC", "family_source": fam["src"], "type": repr(T), "value": repr(x), "detailed_validation": dvv,
+                                         "unstructured": repr(ures[1]), "expected_for_the_typevar_attributes": repr(exp_fields)})
+                            break
         finally:
             sys.modules.pop(modname, None)
     v.coverage["generic_battery"] = hist
